@@ -3,3 +3,6 @@ pub mod gen;
 pub mod props;
 pub mod refcodec;
 pub mod refcrypto;
+pub mod refproto;
+pub mod reqgen;
+pub mod srvlab;
